@@ -62,3 +62,7 @@ chk("C17", "E6-dkg", "model_checking",
     "BFS over event sequences (prepare/execute/contribute from participants and from a configured non-participant peer/commit/abort for two account names, clock advance) delivered to one real instance through its receiver handler, with lifecycle monitors from the property text on every transition and the harness's own record of who contributed.",
     "Trusted: threshold 2 of 3 only; session fate after a failed commit is unspecified and follows the implementation.",
     "explicit-state BFS of the implementation with lifecycle monitors on every transition", "5/C17")
+chk("C14", "E6-dkg", "exploration",
+    "For every accepted (n,t) up to the stated n and every conflicting pair, every assignment of request sequences over the two duties to the real instances is run on a freshly DKG-generated account; no instance may release partial signatures for both duties and real threshold recovery over every t-subset must not succeed for both; both duties are also delivered concurrently to one instance under the cooperative scheduler.",
+    "Trusted: BLS library; instances share no state on the signing path (checked); representative sequences above n=2 (quick) / n=3 (thorough).",
+    "exhaustive assignment enumeration with real threshold-signature recovery + preemption-bounded schedule enumeration", "5/C14")
